@@ -462,6 +462,103 @@ def case_dataset(B, cfg):
                  d)
 
 
+def _mechs(obj):
+    """the mechanistic models a (wrapped) predictive model simulates"""
+    if isinstance(obj, chi.PAMPredictiveModel):
+        out = []
+        for mdl in obj.get_predictive_model():
+            out += _mechs(mdl)
+        return out
+    if isinstance(obj, chi.PopulationPredictiveModel):
+        # (its inherited get_submodels() cannot be used: it reads attributes
+        # this subclass never sets)
+        return _mechs(obj._predictive_model)
+    if isinstance(obj, chi.PredictiveModel):
+        return [obj.get_submodels()['Mechanistic model']]
+    return _mechs(obj.get_predictive_model())
+
+
+def case_wrappers(B, cfg):
+    """(f) a regimen set through a predictive model -- plain, population,
+    prior, posterior, averaged over several posterior predictive models --
+    reaches every system that is simulated, and the regimen table lists
+    exactly those doses"""
+    import pints
+    from .c15 import _posterior_dataset
+    kind = cfg['wrapper']
+
+    def pm(direct):
+        m = _pk(B)
+        m.set_administration('central', direct=direct)
+        return chi.PredictiveModel(m, chi.GaussianErrorModel())
+
+    def posterior(direct):
+        p = pm(direct)
+        ds, cells = _posterior_dataset(B, p.get_parameter_names(), None, 1,
+                                       2)
+        return chi.PosteriorPredictiveModel(p, ds)
+    if kind == 'predictive':
+        w = pm(True)
+    elif kind == 'population':
+        p = pm(False)
+        w = chi.PopulationPredictiveModel(p, chi.ComposedPopulationModel(
+            [chi.PooledModel() for _ in range(p.n_parameters())]))
+    elif kind == 'prior':
+        p = pm(True)
+        w = chi.PriorPredictiveModel(p, pints.ComposedLogPrior(*[
+            pints.HalfCauchyLogPrior(0, 1)
+            for _ in range(p.n_parameters())]))
+    elif kind == 'posterior':
+        w = posterior(False)
+    else:
+        w = chi.PAMPredictiveModel(
+            [posterior(d) for d in cfg['directs']],
+            [1.0] * len(cfg['directs']))
+    dose, start, dur = B.var('dose'), B.var('start'), B.var('duration')
+    B.assume(dose > 0)
+    B.assume(start >= 0)
+    B.assume(dur > 0)
+    kw = dict(dose=dose, start=start, duration=dur)
+    if cfg.get('period'):
+        kw['period'] = B.var('period')
+        B.assume(kw['period'] > dur)
+        kw['num'] = cfg.get('num')
+    n_calls = cfg.get('calls', 1)
+    for c in range(n_calls - 1):
+        # an earlier regimen is replaced, not kept
+        w.set_dosing_regimen(dose=B.var('old_dose'), start=B.var('old_s'))
+    try:
+        w.set_dosing_regimen(**kw)
+    except Exception as e:
+        B.fact('no-exception:set_dosing_regimen', False, repr(e))
+        return
+    mechs = _mechs(w)
+    B.fact('number of simulated systems',
+           len(mechs) == (len(cfg['directs']) if kind == 'pam' else 1),
+           repr(len(mechs)))
+    for q_, m in enumerate(mechs):
+        reg = m.dosing_regimen()
+        ev = [] if reg is None else reg.events()
+        tag = 'simulated system %d' % q_
+        B.fact('%s: one dose event' % tag, len(ev) == 1, repr(len(ev)))
+        if len(ev) != 1:
+            continue
+        e = ev[0]
+        B.eq('%s: amount' % tag, e.level() * e.duration(), dose)
+        B.eq('%s: start' % tag, e.start(), start)
+        B.eq('%s: duration' % tag, e.duration(), dur)
+        if cfg.get('period'):
+            B.eq('%s: period' % tag, e.period(), kw['period'])
+            B.fact('%s: number of doses' % tag,
+                   e.multiplier() == (cfg.get('num') or 0),
+                   repr(e.multiplier()))
+        else:
+            B.fact('%s: single dose' % tag,
+                   e.period() == 0 and e.multiplier() == 0)
+        B.fact('%s: the protocol is on the live simulator' % tag,
+               reg is m._simulator._protocol)
+
+
 def jobs(tier):
     out = []
     q = tier == 'quick'
@@ -517,6 +614,16 @@ def jobs(tier):
                         out.append(('surgery', 'case_surgery', dict(
                             model='generated', spec=spec, var=s,
                             first_var=s0, direct=direct), FACADE))
+    for wkind in ('predictive', 'population', 'prior', 'posterior'):
+        for period, num in ((False, None), (True, None), (True, 2)):
+            out.append(('wrappers', 'case_wrappers', dict(
+                wrapper=wkind, period=period, num=num,
+                calls=1 + (num == 2)), FACADE))
+    for directs in ([True, True], [True, False], [False, True, True]):
+        for period, num in ((False, None), (True, 3)):
+            out.append(('wrappers', 'case_wrappers', dict(
+                wrapper='pam', directs=directs, period=period, num=num,
+                calls=1 + int(period)), FACADE))
     for mult in (0, 1, 2, 3):
         out.append(('table', 'case_table', dict(
             multiplier=mult, periodic=True), FACADE))
